@@ -151,7 +151,9 @@ MergeTgClauses(e) ==
   LET pre == e.pre  names == e.args.names  preserve == e.args.preserve  r == e.ret
       others == IF preserve THEN SelectSeq(pre.tiers, LAMBDA t : ~\E i \in Idx(names) : names[i] = t.name) ELSE <<>>
       merged == [i \in Idx(e.each) |-> e.each[i].ret]
-  IN [ C10_mergeTiers_succeeds |-> AllEachOk(e) => OkE(e),
+      present == \A i \in Idx(names) : HasName(pre, names[i])
+  IN [ C10_mergeTiers_succeeds |-> (present /\ AllEachOk(e)) => OkE(e),
+       C10_mergeTiers_unknown_name_raises |-> (~present) => ~OkE(e),
        C10_mergeTiers_is_union_of_selected |-> (RetTg(e) /\ AllEachOk(e)) => r.tiers = others \o merged ]
 
 (* alignBoundariesAcrossTiers(tg, referenceName, maxDifference) (C14): dejitter applied to every non-reference tier,   *)
